@@ -128,10 +128,10 @@ Lemma keeps_updr c f : (forall l, rS (f l) = rS l) -> keeps c (updr f).
 Proof. intros H s. unfold updr, st. simpl. split; [apply H|reflexivity]. Qed.
 Lemma keeps_bind c a b : keeps c a -> keeps c b -> keeps c (a ;; b).
 Proof.
-  intros Ha Hb s. unfold bindM, st in *. specialize (Ha s). destruct (a s) as [[s1 o1] f1]. simpl in *.
+  intros Ha Hb s. unfold keeps, bindM, st in *. specialize (Ha s). destruct (a s) as [[s1 o1] f1]. simpl in *.
   destruct f1; simpl; try exact Ha.
   specialize (Hb s1). destruct (b s1) as [[s2 o2] f2]. simpl in *.
-  destruct Ha as [A1 A2], Hb as [B1 B2]. split; [congruence|]. intros C. rewrite (B2 C). exact (A2 C).
+  destruct Ha as [A1 A2], Hb as [B1 B2]. split; [rewrite B1; exact A1|]. intros C. rewrite (B2 C). exact (A2 C).
 Qed.
 Lemma keeps_withS c (k : sm -> M) : (forall s0, keeps c (k s0)) -> keeps c (withS k).
 Proof. intros H s. unfold withS. apply H. Qed.
@@ -754,7 +754,7 @@ Ltac nr_step :=
   | |- noreq _ (match ?x with _ => _ end) => destruct x
   end.
 Ltac nr := repeat (nr_step; cbv beta zeta).
-Ltac unf_h := unfold handle_precommit_view, handle_prevote_view, handle_commit_wait_view, handle_jump_ahead, view_tail,
+Ltac unf_h := unfold view_tail, handle_precommit_view, handle_prevote_view, handle_commit_wait_view, handle_jump_ahead,
   handle_block_data, handle_finalization, handle_height_committed, vrv_or_panic, thresholds, advance_round, advance_height,
   begin_commit, reset, set_hr, send_entrance, cancel_timer, start_timer, finalize_req, req_decide, req_choose, req_consider, emit.
 
@@ -792,7 +792,7 @@ Proof.
   destruct (rS (rl s) =? StepAwaitingProposal) eqn:E1; [apply N.eqb_eq in E1; revert Hs; rewrite E1; steps; lia|].
   destruct ((rS (rl s) =? StepAwaitingPrevotes) || (rS (rl s) =? StepPrevoteDelay)) eqn:E2.
   { apply orb_true_iff in E2. destruct E2 as [E|E]; apply N.eqb_eq in E; revert Hs; rewrite E; steps; lia. }
-  destruct (_ || _); [apply nr_handle_precommit_view|].
+  clear E2. destruct (_ || _); [apply nr_handle_precommit_view|].
   destruct (_ || _); [apply nr_handle_commit_wait_view|apply nr_stop].
 Qed.
 
@@ -876,7 +876,10 @@ Lemma le7_view_tail v ja : le7 (view_tail v ja).
 Proof. unf_all. l7. Qed.
 Lemma le7_handle_view_update v ja : le7 (handle_view_update v ja).
 Proof.
-  unfold handle_view_update. l7. cbv zeta. apply le7_suspend; [|apply le7_view_tail].
+  unfold handle_view_update. apply le7_withS. intros s0.
+  destruct (v_h v =? 0); [destruct ja; [unf_all; l7|l7]|].
+  destruct (negb _); [l7|]. destruct (rVRV (rl s0)); [|l7]. destruct (v_ver v <=? v_ver v0); [l7|]. cbv zeta.
+  apply le7_suspend; [|apply le7_view_tail].
   unf_all. l7.
 Qed.
 Lemma le7_handle_timer_elapsed : le7 handle_timer_elapsed.
